@@ -3,7 +3,8 @@
 // Four runtime monitors over the real code (see NOTES.md):
 //  1. round trip of job tables through offsetDB.save / a fresh offsetDB.load
 //     (and offset.SaveYAML / LoadYAML),
-//  2. crash / fault matrix over the steps of the save protocol,
+//  2. crash / fault matrix over the steps of the save protocol (small tables, and
+//     large tables with a fault at every write step / real short writes),
 //  3. concurrent commits against saves (never ahead, never stale, monotone),
 //  4. syscall order (fsync of the temp file before the rename) under strace.
 package main
@@ -68,6 +69,10 @@ func run(c *core.Ctx) {
 		"saved by one reused offsetDB and loaded by a fresh one; distinct = (jobs, streams, >64KiB, set of name shapes). " +
 		"fault matrix: per (previous table P | none, new table N) x {kill at each of the 5 protocol points, injected error at write/sync, real short write (RLIMIT_FSIZE), " +
 		"fsync EIO (strace inject), temp open failure, rename EXDEV, in-process observation at each point}; distinct = (fault, had previous, which snapshot the file is). " +
+		"large-table fault matrix: per table of 420-3750 jobs x 0-6 streams (snapshot 64 KiB .. ~900 KiB; previous snapshot large | small | none): a fault-free probe counts the write steps W and the size S, then " +
+		"{injected failure at each of the W write steps (once, twice, from k on), kill at each write step, ENOSPC injected by strace at each write(2) call on the temp file, real short write (RLIMIT_FSIZE) at ~20 limits " +
+		"(1, 4096, 64KiB-1/+0/+1/+small, 128KiB-1/+0/+1/+small, 192KiB, later multiples of 64KiB, S/2, S-64KiB, S-4096, S-1, random), limits S and S+1 (must succeed), sync failure, reader at every point}; " +
+		"distinct = (fault, previous kind, size class, write position or limit class, which snapshot the file is). " +
 		"concurrent: 1-6 committers over 1-4 jobs x 1-3 streams through the real commit, sync or async persistence, GOMAXPROCS 1-8, seeded yields after the store; " +
 		"non-trivial = at least one snapshot taken while a commit was in flight; distinct = hash of which commit each key shows in every snapshot. " +
 		"syscall order: strace of 3-7 successive saves per run.")
